@@ -167,6 +167,9 @@ func c04Point(c *ev.Ctx, r *rand.Rand, caseN, k int, d *cons.DAG, T *cons.Inst, 
 		switch {
 		case variantMode == 0 || (variantMode == 1 && n%3 == 0):
 			cand = c04candidate(plan.Epoch, e.Creator(), sp, nil)
+			if n%2 == 0 {
+				cand.SetLamport(e.Lamport()) // same Lamport as the real event, fewer parents
+			}
 		case variantMode == 1 && n%3 == 1:
 			var sub []*cons.Ev
 			for _, o := range others {
